@@ -49,7 +49,15 @@ pub fn shapes_of(p: &Program) -> Vec<&'static str> {
     if (0..n).any(|d| on_cycle[d] && matches!(p.decls[d].rhs.peel(), E::Var { .. })) {
         out.push("alias-on-cycle");
     }
-    if (0..n).any(|d| on_cycle[d] && (p.decls[d].ty == Ty::Uri || matches!(&p.decls[d].ty, Ty::Fun(_, r) if **r == Ty::Uri))) {
+    // URI-kinded by the generator's kind or, after a kind-breaking mutation, by the look of the right-hand side
+    let uri_headed = |e: &E| match e.peel() {
+        E::UriT { .. } => true,
+        E::App { f, .. } => matches!(f.peel(), E::Var { target: crate::gen::ast::Target::Builtin(b), .. } if b == "concat"),
+        _ => false,
+    };
+    if (0..n).any(|d| {
+        on_cycle[d] && (p.decls[d].ty == Ty::Uri || matches!(&p.decls[d].ty, Ty::Fun(_, r) if **r == Ty::Uri) || uri_headed(&p.decls[d].rhs))
+    }) {
         out.push("uri-kinded-declaration-on-cycle");
     }
     out
